@@ -527,12 +527,14 @@ class Ovld:
         dispatch = generate_dispatch(self, self.argument_analysis)
         if not hasattr(self, "dispatch"):
             self.dispatch = bootstrap_dispatch(self, name=self.shortname)
-        self.dispatch.__code__ = rename_code(dispatch.__code__, self.shortname)
         self.dispatch.__kwdefaults__ = dispatch.__kwdefaults__
         self.dispatch.__annotations__ = dispatch.__annotations__
         self.dispatch.__defaults__ = dispatch.__defaults__
         self.dispatch.__globals__.update(dispatch.__globals__)
         self.dispatch.map = self.map
+        # The code goes in last: another thread may call the function at
+        # any point, and the new code needs the defaults and globals above.
+        self.dispatch.__code__ = rename_code(dispatch.__code__, self.shortname)
         self.dispatch.__doc__ = self.mkdoc()
 
         for key, fn in list(self.defns.items()):
